@@ -99,56 +99,77 @@ def relay_cases(ctx, rng, n, scratch):
   return recs
 
 
+def write_rules(rng, path):
+  nrules = rng.randint(0, 3)
+  rules, lines = [], []
+  for i in range(nrules):
+    pat, out = aggsys.gen_rule(rng)
+    rules.append(dict(pat=pat, out=out))
+    in_text = '.'.join(aggsys.render_part(p) for p in pat)
+    out_text = '.'.join(aggsys.render_part(p) if p['k'] == 'lit' else '<f%d>' % p['n'] for p in out)
+    lines.append('%s (10) = %s %s' % (out_text, rng.choice(['sum', 'avg', 'max']), in_text))
+  with open(path, 'w') as fh:
+    fh.write('\n'.join(lines) + '\n')
+  return rules, lines
+
+
 def agg_cases(ctx, rng, n, scratch, settings):
+  from twisted.internet import task
   from carbon.routers import AggregatedConsistentHashingRouter
   import carbon.aggregator.rules as arules
+  rm = arules.RuleManager
   recs = []
   for k in range(n):
-    nrules = rng.randint(0, 3)
-    rules = []
-    lines = []
-    for i in range(nrules):
-      pat, out = aggsys.gen_rule(rng)
-      rules.append(dict(pat=pat, out=out))
-      in_text = '.'.join(aggsys.render_part(p) for p in pat)
-      out_text = '.'.join(aggsys.render_part(p) if p['k'] == 'lit' else '<f%d>' % p['n'] for p in out)
-      lines.append('%s (10) = %s %s' % (out_text, rng.choice(['sum', 'avg', 'max']), in_text))
     path = os.path.join(scratch, 'aggregation-rules-%d.conf' % k)
-    with open(path, 'w') as fh:
-      fh.write('\n'.join(lines) + '\n')
+    rules, lines = write_rules(rng, path)
     s2 = dict(settings)
     s2['aggregation-rules'] = path
     s2['REPLICATION_FACTOR'] = rng.randint(1, 2)
     s2['DIVERSE_REPLICAS'] = False
     s2['ROUTER_HASH_TYPE'] = rng.choice(['carbon_ch', 'fnv1a_ch'])
-    arules.RuleManager.rules_last_read = 0.0
+    if rm.read_task.running:
+      rm.read_task.stop()
+    clock = task.Clock()
+    rm.read_task.clock = clock
+    rm.rules_last_read = 0.0
 
     class S(dict):
       __getattr__ = dict.__getitem__
     router = AggregatedConsistentHashingRouter(S(s2))
-    if arules.RuleManager.read_task.running:
-      arules.RuleManager.read_task.stop()
+    reloaded = False
+    if k % 2:
+      # the rules file changes while the relay runs: the 10 s re-read task picks it up
+      rules, lines = write_rules(rng, path)
+      os.utime(path, (rm.rules_last_read + 100, rm.rules_last_read + 100))
+      clock.advance(11)
+      reloaded = True
+    if rm.read_task.running:
+      rm.read_task.stop()
     os.unlink(path)
     nd = rng.randint(2, 5)
     dests = [('10.0.0.%d' % i, 2004, rng.choice(['a', 'b'])) for i in range(1, nd + 1)]
+    from carbon.routers import ConsistentHashingRouter
+    ref_router = ConsistentHashingRouter(S(s2))     # reference for the hash destinations of a key (C05/C06)
     for d in dests:
       router.addDestination(d)
+      ref_router.addDestination(d)
     didx = {d: i + 1 for i, d in enumerate(dests)}
     for _ in range(4):
       pat = rng.choice(rules)['pat'] if rules and rng.random() < 0.8 else aggsys.gen_rule(rng)[0]
       name = aggsys.gen_name(rng, pat)
       obs = sorted(set(didx[d] for d in router.getDestinations(name)))
-      # hash destinations (the consistent-hashing router itself is C05/C06) of every candidate key
+      # hash destinations (the consistent-hashing router itself is C05/C06) of every candidate key: the name and
+      # whatever aggregate names the rule manager's current rules give
       cands = {name}
-      for r in router.agg_rules_manager.rules:
+      for r in rm.rules:
         a = r.get_aggregate_metric(name)
         if a is not None:
           cands.add(a)
       hashd = []
       for cnd in sorted(cands):
-        hashd.append([[aggsys.enc(seg) for seg in cnd.split('.')], sorted(set(didx[d] for d in router.hash_router.getDestinations(cnd)))])
+        hashd.append([[aggsys.enc(seg) for seg in cnd.split('.')], sorted(set(didx[d] for d in ref_router.getDestinations(cnd)))])
       recs.append(dict(kind='agg', rules=rules, name=[aggsys.enc(seg) for seg in name.split('.')], obs=obs, hashd=hashd,
-                       text=dict(rules=lines, name=name)))
+                       text=dict(rules=lines, name=name, reloaded=reloaded)))
   return recs
 
 
